@@ -7,6 +7,7 @@
 #include <sys/socket.h>
 #include <netinet/in.h>
 #include <errno.h>
+#include <poll.h>
 #include "vh.h"
 #include "wrap_sys.h"
 
@@ -363,6 +364,62 @@ static void run_odd_states(void) {
 
 /* ---- send into a full pipe: non-blocking => would-block at once (no poll); timed => timed-out not before T ---- */
 static long long st_fullpipe;
+/* A connect that can neither complete nor be refused within the timeout: the listener's accept queue is full and nobody accepts, so the
+ * kernel drops further SYNs.  A blocking socket with timeout T must fail with timed-out after >= T and stay unconnected; a non-blocking
+ * one must report in-progress at once.  (If the kernel cannot be brought into that state the case is skipped.) */
+static long long st_connect_stalls;
+static void run_connect_stall(void) {
+	int mode;
+	for (mode = 0; mode < 4; mode++) {             /* bit0: v6, bit1: non-blocking instead of timed-blocking */
+		pid_t pid; int status, waited = 0; int v6 = mode & 1, nonblk = (mode >> 1) & 1;
+		fflush(stdout);
+		pid = fork();
+		if (pid == 0) {
+			PSocketAddress *la = loop_addr(v6, 0), *ba; PSocket *ls, *cl; PError *err = NULL; int i, stalled = 0, raw[16], nraw = 0; struct sockaddr_storage ss; socklen_t sl = sizeof ss; pboolean ok; uint64_t t0; double el;
+			ls = p_socket_new(v6 ? P_SOCKET_FAMILY_INET6 : P_SOCKET_FAMILY_INET, P_SOCKET_TYPE_STREAM, P_SOCKET_PROTOCOL_TCP, NULL);
+			if (!ls) _exit(9);
+			p_socket_set_listen_backlog(ls, 1);
+			if (!p_socket_bind(ls, la, TRUE, NULL) || !p_socket_listen(ls, NULL)) _exit(9);
+			ba = p_socket_get_local_address(ls, NULL); if (!ba) _exit(9);
+			if (getsockname(p_socket_get_fd(ls), (struct sockaddr *)&ss, &sl)) _exit(9);
+			/* fill the accept queue with raw non-blocking connects until one stays pending */
+			for (i = 0; i < 16 && !stalled; i++) {
+				int fd = __real_socket(v6 ? AF_INET6 : AF_INET, SOCK_STREAM | SOCK_NONBLOCK, 0), rc, t; struct pollfd pf;
+				if (fd < 0) _exit(9);
+				raw[nraw++] = fd; rc = connect(fd, (struct sockaddr *)&ss, sl);
+				if (rc == 0) continue;
+				if (errno != EINPROGRESS) _exit(9);
+				pf.fd = fd; pf.events = POLLOUT; pf.revents = 0; t = __real_poll(&pf, 1, 250);
+				if (t == 0) stalled = 1;                     /* still in progress after 250 ms: the queue is full */
+			}
+			if (!stalled) _exit(5);
+			cl = p_socket_new(v6 ? P_SOCKET_FAMILY_INET6 : P_SOCKET_FAMILY_INET, P_SOCKET_TYPE_STREAM, P_SOCKET_PROTOCOL_TCP, NULL); if (!cl) _exit(9);
+			if (nonblk) p_socket_set_blocking(cl, FALSE); else p_socket_set_timeout(cl, 150);
+			w_t_polls = 0; t0 = vh_now_ns(); ok = p_socket_connect(cl, ba, &err); el = (double)(vh_now_ns() - t0) / 1e6;
+			if (ok) _exit(p_socket_is_connected(cl) ? 10 : 11);
+			if (p_socket_is_connected(cl)) _exit(12);
+			if (nonblk) { if (!err || (p_error_get_code(err) != P_ERROR_IO_IN_PROGRESS && p_error_get_code(err) != P_ERROR_IO_WOULD_BLOCK)) _exit(6); if (w_t_polls) _exit(7); _exit(0); }
+			if (!err || p_error_get_code(err) != P_ERROR_IO_TIMED_OUT) _exit(6);
+			if (el < 150 - 1.0) _exit(8);
+			_exit(0);
+		}
+		while (waited < 1500) { if (waitpid(pid, &status, WNOHANG) == pid) break; usleep(10000); waited++; }
+		st_connect_stalls++;
+		cur = "p_socket_connect";
+		if (waited >= 1500) { kill(pid, SIGKILL); waitpid(pid, &status, 0); viol("connect-stalled-never-returns", "%s connect to a listener with a full accept queue did not return within 15 s", nonblk ? "a non-blocking" : "a timed (150 ms)"); }
+		else if (WIFSIGNALED(status)) viol("killed-by-signal", "connect to a listener with a full accept queue killed the process with signal %d", WTERMSIG(status));
+		else switch (WEXITSTATUS(status)) {
+			case 0: break;
+			case 5: case 9: st_skipped++; st_connect_stalls--; break;             /* the state could not be set up */
+			case 6: viol(nonblk ? "nonblocking-wrong-error" : "timed-wrong-error", "connect that cannot complete failed with another error than %s", nonblk ? "in-progress" : "timed-out"); break;
+			case 7: viol("nonblocking-waited", "non-blocking connect called poll()"); break;
+			case 8: viol("timed-out-early", "timed connect that cannot complete failed before its 150 ms timeout"); break;
+			case 10: case 11: viol("connect-succeeded-without-handshake", "connect to a listener whose accept queue is full returned TRUE although the handshake cannot have completed (is_connected=%d)", WEXITSTATUS(status) == 10); break;
+			case 12: viol("getter-connected", "after a failed connect is_connected is TRUE"); break;
+			default: viol("child-failed", "connect-stall child exit %d", WEXITSTATUS(status)); break;
+		}
+	}
+}
 static void run_full_pipe(void) {
 	int mode;
 	for (mode = 0; mode < 4; mode++) {             /* bit0: v6, bit1: timed-blocking instead of non-blocking */
@@ -412,9 +469,9 @@ int main(int argc, char **argv) {
 	p_libsys_init();
 	run_sequences(&r, n, (int)vh_argi(argc, argv, "--maxcalls", 30));
 	run_fixed(&r, fixed);
-	if (!vh_flag(argc, argv, "--no-odd")) { run_odd_states(); run_full_pipe(); }
+	if (!vh_flag(argc, argv, "--no-odd")) { run_odd_states(); run_full_pipe(); run_connect_stall(); }
 	p_libsys_shutdown();
 	printf("{\"ev\":\"stats\",\"sequences\":%lld,\"calls\":%lld,\"distinct_states\":%zu,\"distinct_transitions\":%zu,\"timed_cases\":%lld,\"timed_cases_with_interrupted_poll\":%lld,\"nonblocking_cases\":%lld,\"closed_socket_calls\":%lld,\"accepts\":%lld,\"connects\":%lld,"
-	       "\"untimed_blocking\":%lld,\"odd_state_probes\":%lld,\"full_pipe_cases\":%lld,\"cloexec_checked\":%lld,\"skipped\":%lld,\"viol\":%d,\"wall\":%.2f}\n", st_seq, st_calls, scnt, tcnt, st_timed, st_timed_eintr, st_nonblock, st_closed_calls, st_accepts, st_connects, st_untimed, st_odd, st_fullpipe, st_cloexec_checked, st_skipped, vh_nviol, vh_now() - t0);
+	       "\"untimed_blocking\":%lld,\"odd_state_probes\":%lld,\"full_pipe_cases\":%lld,\"connect_stall_cases\":%lld,\"cloexec_checked\":%lld,\"skipped\":%lld,\"viol\":%d,\"wall\":%.2f}\n", st_seq, st_calls, scnt, tcnt, st_timed, st_timed_eintr, st_nonblock, st_closed_calls, st_accepts, st_connects, st_untimed, st_odd, st_fullpipe, st_connect_stalls, st_cloexec_checked, st_skipped, vh_nviol, vh_now() - t0);
 	return 0;
 }
